@@ -89,7 +89,10 @@ var (
 
 func extractFromPath(path *Path, data []byte, optFuncs ...DecodeOptionFunc) ([][]byte, error) {
 	if path.path.RootSelectorOnly {
-		return [][]byte{data}, nil
+		// like every other selection, the result is the caller's own: not a view of the input
+		root := make([]byte, len(data))
+		copy(root, data)
+		return [][]byte{root}, nil
 	}
 	src := make([]byte, len(data)+1) // append nul byte to the end
 	copy(src, data)
